@@ -328,7 +328,7 @@ func runC17(c *Ctx) {
 		if f == nil {
 			continue
 		}
-		for _, lit := range withAnon(f) {
+		for _, lit := range c.withHelpers(f) {
 			eachInstr(lit, func(i ssa.Instruction) {
 				ci, ok := i.(*ssa.Call)
 				if !ok {
